@@ -842,6 +842,9 @@ func (a *Agent) DownloadAdd(FileID int, FilePath string, FileSize int64) error {
 		return errors.New("File didn't started with agent download path. abort")
 	}
 
+	/* create and use the path that was checked, not the one that was supplied */
+	DemonDownload = path
+
 	if _, err := os.Stat(DemonDownload); os.IsNotExist(err) {
 		if err = os.MkdirAll(DemonDownload, os.ModePerm); err != nil {
 			logger.Error("Failed to create Logr demon download path" + a.NameID + ": " + err.Error())
